@@ -199,7 +199,20 @@ def conclude(prop, tier, seed, run, wall):
         events += g.get("edges", 0)
         bad += g.get("bad", [])
         samples += g.get("samples", [])[:2]
-    known, fresh = findings.classify(prop, bad, kf)
+    # clauses named x-... belong to the SPECIFICATION'S EXTENSION beyond the listed property (behaviour the spec also
+    # describes: closest(), average(), Interval.in_days() ...).  They are judged and reported, but only the clauses
+    # of the property itself decide the verdict of the check.
+    ext = collections.OrderedDict()
+    prop_bad = []
+    for ev in bad:
+        xs = [c for c in ev["verdict"]["v"] if str(c[0]).startswith("x-")]
+        rest = [c for c in ev["verdict"]["v"] if not str(c[0]).startswith("x-")]
+        if xs:
+            ext.setdefault((ev["op"], tuple(c[0] for c in xs)), []).append(ev)
+        if rest:
+            ev = dict(ev, verdict=dict(ev["verdict"], v=rest))
+            prop_bad.append(ev)
+    known, fresh = findings.classify(prop, prop_bad, kf)
     rdir = os.path.join(BUILD, "replay")
     os.makedirs(rdir, exist_ok=True)
     import glob
@@ -208,6 +221,10 @@ def conclude(prop, tier, seed, run, wall):
         os.remove(old)
     for fid, evs in sorted(known.items()):
         print("KNOWN-FINDING: property=%s %s [%s; %d event(s) this run]" % (prop, kf[fid]["what"], fid, len(evs)))
+    for (op_, cls), evs in ext.items():
+        e0 = evs[0]
+        print("SPEC-EXTENSION-DIVERGENCE: property=%s op=%s clauses=%s count=%d (not part of the property; no verdict) first: a=%s pre=%s expected=%s" % (
+            prop, op_, list(cls), len(evs), brief(e0.get("a"), 200), brief(e0.get("pre"), 300), brief(e0["verdict"]["v"], 200)))
     vio_paths = []
     groups = collections.OrderedDict()
     for ev in fresh:
@@ -246,6 +263,7 @@ def conclude(prop, tier, seed, run, wall):
         "per_backend_events": dict(per_backend),
         "model_checking_runs": run.mc,
         "known_findings_matched": {k: len(v) for k, v in known.items()},
+        "spec_extension_divergences": {"%s %s" % (k[0], "+".join(k[1])): len(v) for k, v in ext.items()},
         "exhaustive": False,
         "notes": run.notes,
     }
